@@ -609,6 +609,31 @@ pub fn comparator_axioms(ctx: &Ctx, tier: Tier) -> u64 {
 /// specification order) is loaded and sorted: afterwards the children of every element must still be in the order the
 /// specification of *that version* prescribes (checked by C07's order checker, which uses the version's own index
 /// lists), nothing may be lost, and a second sort must change nothing.
+/// reverse the children of every parent whose content may be sorted (not ordered, no character content), keeping the
+/// identity carrier SHORT-NAME in front; returns the number of parents whose order changed
+fn scramble(n: &mut Node, t: autosar_data_specification::ElementType, v: AutosarVersion) -> u64 {
+    use crate::common::tree::Item as TItem;
+    use std::str::FromStr;
+    let mut changed = 0;
+    for it in n.items.iter_mut() {
+        if let TItem::Node(c) = it {
+            if let Some((ct, _)) = ElementName::from_str(&c.name).ok().and_then(|nm| t.find_sub_element(nm, v as u32)) {
+                changed += scramble(c, ct, v);
+            }
+        }
+    }
+    if matches!(t.content_mode(), autosar_data_specification::ContentMode::Sequence | autosar_data_specification::ContentMode::Choice | autosar_data_specification::ContentMode::Bag) && !t.is_ordered() {
+        let items = std::mem::take(&mut n.items);
+        let (front, mut rest): (Vec<TItem>, Vec<TItem>) = items.into_iter().partition(|i| matches!(i, TItem::Node(c) if c.name == "SHORT-NAME"));
+        if rest.len() > 1 {
+            changed += 1;
+        }
+        rest.reverse();
+        n.items = front.into_iter().chain(rest).collect();
+    }
+    changed
+}
+
 pub fn sort_full_documents(ctx: &Ctx, tier: Tier) -> u64 {
     use crate::common::docgen::DocGen;
     use crate::common::specgraph::VERSIONS;
@@ -686,6 +711,30 @@ pub fn sort_full_documents(ctx: &Ctx, tier: Tier) -> u64 {
             let t2 = m.files().next().and_then(|f| f.serialize().ok());
             if t1 != t2 {
                 ctx.violation("full-document|second-sort-changes-the-result", json!({"kind": "sort-full", "version": format!("{v:?}")}));
+            }
+            // the result does not depend on the previous order: the same document with the children of every parent that may be
+            // sorted in reverse order (the parser does not enforce sibling order) sorts to the same text
+            let mut scrambled = doc.clone();
+            let reversed_parents = scramble(&mut scrambled, autosar_data_specification::ElementType::ROOT, *v);
+            ctx.count("full_document_parents_reversed", reversed_parents);
+            let text_s = print_document(&scrambled, *v, &PrintOpts::default());
+            let ms = AutosarModel::new();
+            match ms.load_buffer(text_s.as_bytes(), "full.arxml", true) {
+                Err(e) => ctx.machinery_error(format!("sort on full documents: the reversed document of {v:?} does not load: {e}")),
+                Ok(_) => {
+                    if let Err(msg) = guarded(|| ms.sort()) {
+                        ctx.violation(format!("full-document|panic|sort-of-reversed-document|{}", last_panic_loc()), json!({"kind": "sort-full", "version": format!("{v:?}"), "msg": msg}));
+                    } else {
+                        let ts = ms.files().next().and_then(|f| f.serialize().ok());
+                        if ts != t1 {
+                            // first differing line, with the element it belongs to
+                            let (a, b) = (t1.clone().unwrap_or_default(), ts.unwrap_or_default());
+                            let diff = a.lines().zip(b.lines()).enumerate().find(|(_, (x, y))| x != y).map(|(i, (x, y))| format!("line {}: {} | {}", i + 1, x.trim(), y.trim())).unwrap_or_else(|| "length".into());
+                            let first_kind = order_problems(&ms).first().map(|f| f.split(' ').next().unwrap_or("").to_string()).unwrap_or_else(|| "same-kind-siblings".into());
+                            ctx.violation(format!("full-document|result-depends-on-previous-order|{first_kind}"), json!({"kind": "sort-full", "version": format!("{v:?}"), "first_difference": diff}));
+                        }
+                    }
+                }
             }
             if let Some(t) = t1 {
                 let m2 = AutosarModel::new();
